@@ -14,52 +14,52 @@ import (
 // Thin exported wrappers around unexported builders and the stream of a QuicClient;
 // compiled only with -tags verif.
 
-func VerifBuildTransactionsMessage(txs []*common.VersionedTransaction, typ byte) []byte {
+func VerifC31BuildTransactionsMessage(txs []*common.VersionedTransaction, typ byte) []byte {
 	return buildTransactionsMessage(txs, typ)
 }
 
-func VerifBuildTransactionChallengeMessage(snap crypto.Hash, cosi *crypto.CosiSignature, txs []*common.VersionedTransaction) []byte {
+func VerifC31BuildTransactionChallengeMessage(snap crypto.Hash, cosi *crypto.CosiSignature, txs []*common.VersionedTransaction) []byte {
 	return buildBatchTransactionChallengeMessage(snap, cosi, txs)
 }
 
-func VerifBuildFullChallengeMessage(s *common.Snapshot, commitment, challenge *crypto.Key, txs []*common.VersionedTransaction) []byte {
+func VerifC31BuildFullChallengeMessage(s *common.Snapshot, commitment, challenge *crypto.Key, txs []*common.VersionedTransaction) []byte {
 	return buildBatchFullChallengeMessage(s, commitment, challenge, txs)
 }
 
-func VerifBuildAnnouncementMessage(s *common.Snapshot, R, spend crypto.Key) []byte {
+func VerifC31BuildAnnouncementMessage(s *common.Snapshot, R, spend crypto.Key) []byte {
 	return buildBatchSnapshotAnnouncementMessage(s, R, spend)
 }
 
-func VerifBuildCommitmentMessage(handle SyncHandle, snap crypto.Hash, R crypto.Key, wantTxs []crypto.Hash) []byte {
+func VerifC31BuildCommitmentMessage(handle SyncHandle, snap crypto.Hash, R crypto.Key, wantTxs []crypto.Hash) []byte {
 	return buildBatchSnapshotCommitmentMessage(handle, snap, R, wantTxs)
 }
 
-func VerifBuildResponseMessage(snap crypto.Hash, si *[32]byte) []byte {
+func VerifC31BuildResponseMessage(snap crypto.Hash, si *[32]byte) []byte {
 	return buildSnapshotResponseMessage(snap, si)
 }
 
-func VerifBuildFinalizationMessage(s *common.Snapshot) []byte {
+func VerifC31BuildFinalizationMessage(s *common.Snapshot) []byte {
 	return buildBatchSnapshotFinalizationMessage(s)
 }
 
-func (me *Peer) VerifBuildRelayMessage(peerId crypto.Hash, msg []byte) []byte {
+func (me *Peer) VerifC31BuildRelayMessage(peerId crypto.Hash, msg []byte) []byte {
 	return me.buildRelayMessage(peerId, msg)
 }
 
-func VerifParseNetworkMessage(version uint8, data []byte) (*PeerMessage, error) {
+func VerifC31ParseNetworkMessage(version uint8, data []byte) (*PeerMessage, error) {
 	return parseNetworkMessage(version, data)
 }
 
-// VerifAddNeighbor registers an unconnected consumer peer: messages offered to it stay in
-// its rings until VerifDrain reads them.
-func (me *Peer) VerifAddNeighbor(id crypto.Hash) *Peer {
+// VerifC31AddNeighbor registers an unconnected consumer peer: messages offered to it stay in
+// its rings until VerifC31Drain reads them.
+func (me *Peer) VerifC31AddNeighbor(id crypto.Hash) *Peer {
 	p := NewPeer(nil, id, "", false)
 	me.consumers.Put(id, p)
 	return p
 }
 
-// VerifDrain returns the data of every message waiting in the rings of p (high first).
-func (p *Peer) VerifDrain() [][]byte {
+// VerifC31Drain returns the data of every message waiting in the rings of p (high first).
+func (p *Peer) VerifC31Drain() [][]byte {
 	var out [][]byte
 	for {
 		select {
@@ -73,13 +73,13 @@ func (p *Peer) VerifDrain() [][]byte {
 	}
 }
 
-func (c *QuicClient) VerifReceiveWithLimit(maxSize uint32) (*TransportMessage, error) {
+func (c *QuicClient) VerifC31ReceiveWithLimit(maxSize uint32) (*TransportMessage, error) {
 	return c.receiveWithLimit(maxSize)
 }
 
-// VerifRawWrite writes bytes to the stream as they are; with fin the sending side of the
+// VerifC31RawWrite writes bytes to the stream as they are; with fin the sending side of the
 // stream is closed afterwards, so the reader sees EOF behind them.
-func (c *QuicClient) VerifRawWrite(b []byte, fin bool) error {
+func (c *QuicClient) VerifC31RawWrite(b []byte, fin bool) error {
 	err := c.stream.SetWriteDeadline(time.Now().Add(WriteDeadline))
 	if err != nil {
 		return err
@@ -96,8 +96,8 @@ func (c *QuicClient) VerifRawWrite(b []byte, fin bool) error {
 	return nil
 }
 
-// VerifRawRead reads exactly n bytes from the stream.
-func (c *QuicClient) VerifRawRead(n int) ([]byte, error) {
+// VerifC31RawRead reads exactly n bytes from the stream.
+func (c *QuicClient) VerifC31RawRead(n int) ([]byte, error) {
 	err := c.stream.SetReadDeadline(time.Now().Add(ReadDeadline))
 	if err != nil {
 		return nil, err
@@ -107,13 +107,13 @@ func (c *QuicClient) VerifRawRead(n int) ([]byte, error) {
 	return b, err
 }
 
-// VerifListenAddr is the address the relayer's listener is bound to.
-func (t *QuicRelayer) VerifListenAddr() string {
+// VerifC31ListenAddr is the address the relayer's listener is bound to.
+func (t *QuicRelayer) VerifC31ListenAddr() string {
 	return t.listener.Addr().String()
 }
 
-// VerifLocalAddr is the local address of the connection (the accepting side sees it as
+// VerifC31LocalAddr is the local address of the connection (the accepting side sees it as
 // RemoteAddr), used to pair the two ends of a loopback connection.
-func (c *QuicClient) VerifLocalAddr() string {
+func (c *QuicClient) VerifC31LocalAddr() string {
 	return c.session.LocalAddr().String()
 }
